@@ -1,6 +1,8 @@
 """C13 reactive Variable/Event/Set subscriptions: interleaving model (coq/C13_Reactive) + correspondence
 (sequential scripts vs model run; free-running racing goroutines judged by the model's log predicates; API family: every
-exported mutator / subscription variant as a program of the model, harness/cmd/c13/api.go). DESIGN.md §7.13."""
+exported mutator / subscription variant as a program of the model, harness/cmd/c13/api.go; wired family: a DerivedSet
+that inherits from its sources AND is written directly / the result of SubtractReactive, the inheritance machinery as one
+more writer of the set, harness/cmd/c13/wired.go). DESIGN.md §7.13."""
 from . import lib
 
 LEVEL = "proof"
@@ -16,15 +18,16 @@ def run(ctx):
         "finite sets of elements are modelled as bit masks (element i = bit i); Variable values as N",
         "storm runs (tight writers against subscribe/unsubscribe loops) are judged by the Go-side oracle only",
         "free-running runs: the global change order is recorded inside the compute function (Variable, under the value mutex) / taken from a permanent first subscriber and cross-checked with the writers' return values (Set)",
+        "wired family (Api.wired_program): which net mutation the occurrence counts of ds.SetArithmetic yield for a source mutation is a hand transcription (arith_add / arith_sub) used to replay the sequential scripts, tied by the correspondence only (the contents of a DerivedSet as a function of its sources are C14's); the theorems hold for EVERY net mutation handed to the writer (KInherit m)",
         "API family (Api.v): Init, ToggleValue (+reset), DefaultTo, InheritFrom are the model's writer with the function the code hands to Compute; OnUpdateOnce / OnUpdateWithContext / WithValue / WithNonEmptyValue / LogUpdates / WithElements are Subscribe/Unsub programs whose user-visible callbacks are a function of the underlying log (observe / sobserve in Corr.v); free-running API runs record the change order inside the transformation function (it runs under the value mutex on every write path)",
     ])
     if thorough:
         for k in range(5):
             ctx.seed += 1000
-            ctx.corr(hx, ["all", "--nseq", "600", "--nfree", "1500", "--nstorm", "30", "--len", "36", "--napi", "600", "--nfreeapi", "900"], cases_name="cases%d.v" % k)
+            ctx.corr(hx, ["all", "--nseq", "600", "--nfree", "1500", "--nstorm", "30", "--len", "36", "--napi", "600", "--nfreeapi", "900", "--nwired", "500", "--nfreewired", "400"], cases_name="cases%d.v" % k)
         ctx.seed -= 5000
     else:
-        ctx.corr(hx, ["all", "--nseq", "300", "--nfree", "400", "--nstorm", "8", "--napi", "200", "--nfreeapi", "150"])
+        ctx.corr(hx, ["all", "--nseq", "300", "--nfree", "400", "--nstorm", "8", "--napi", "200", "--nfreeapi", "150", "--nwired", "150", "--nfreewired", "60"])
     ctx.assumptions += [
         "guard: a callback does not synchronously call its own unsubscribe, nor a write method of the object it is subscribed to (self-deadlock on the execution / update-order mutex by construction; OnUpdateOnce uses `go unsubscribe()` for that reason)",
         "an unsubscribe closure is only called after the OnUpdate call that produced it has returned",
